@@ -1,7 +1,7 @@
 """C06 harness (engine X): the real file path - SequenceFile(..., 'fasta', 'auto').parse() -> open_compressed -> _open_auto ->
 guess_compression -> gzip / text layer -> Bio.SeqIO -> calc_file_signature - on genome files whose *form* varies while the
-biological content stays the same.  File contents are generated in memory per cell and served through a patched `open` in
-gambit.util.io (no real files), so the real decompression, text decoding and FASTA parsing run.  The solver enumerates the
+biological content stays the same.  File contents are generated per cell and written to a real scratch file of the chosen
+name, so the real opening, decompression, text decoding and FASTA parsing run, by whatever route the code takes.  The solver enumerates the
 form dimensions (fork_int); each cell runs natively."""
 import os
 import io
@@ -65,23 +65,21 @@ def compress(data, comp):
     return gzip.compress(data[:cut]) + gzip.compress(data[cut:2 * cut]) + gzip.compress(data[2 * cut:])
 
 
-def file_signature(content, name):
-    files = {name: content}
-    saved = getattr(gio, 'open', None)
-    had = 'open' in vars(gio)
+_FDIR = os.path.join(os.path.dirname(os.path.dirname(os.path.abspath(__file__))), 'scratch', f'c06_files_{os.getpid()}')
+os.makedirs(_FDIR, exist_ok=True)
+import atexit, shutil
+atexit.register(lambda: shutil.rmtree(_FDIR, ignore_errors=True))
 
-    def fake_open(path, mode='r', *a, **kw):
-        if 'b' not in mode:
-            raise AssertionError('expected binary open')
-        return io.BytesIO(files[os.fspath(path)])
-    gio.open = fake_open
+
+def file_signature(content, name):
+    """The real path: a real file of that name and content, opened by whatever means the code under test chooses."""
+    path = os.path.join(_FDIR, name)
+    with open(path, 'wb') as f:
+        f.write(content)
     try:
-        return calc_file_signature(KS, SequenceFile(name, 'fasta', 'auto'))
+        return calc_file_signature(KS, SequenceFile(path, 'fasta', 'auto'))
     finally:
-        if had:
-            gio.open = saved
-        else:
-            del gio.open
+        os.remove(path)
 
 
 def _same(sig, g):
